@@ -637,34 +637,111 @@ pub proof fn lemma_reduced_fraction_unique(n1: int, d1: int, n2: int, d2: int)
     assert(n1 == n2) by (nonlinear_arith) requires n1 * d2 == n2 * d1, d1 == d2, d1 > 0;
 }
 
+/// statement of lemma_gcd_pow10 for one k (a named predicate so that it can be quantified over k)
+pub open spec fn gcd_pow10_split(x: int, e: nat, k: nat) -> bool {
+    let w = x / pow2i(k);
+    let g = gcd(w as nat, pow5(e) as nat) * pow2i(min_nat(k, e));
+    w > 0 && is_odd(w) && 0 < g <= x && is_gcd(x, pow10(e), g)
+}
+
+/// gcd(2^i * a, 2^j * b) for odd a, b in the is_gcd form, with its size
+pub proof fn lemma_is_gcd_pow2_factors(i: nat, j: nat, a: nat, b: nat, g: int)
+    requires a > 0, is_odd(a as int), is_odd(b as int), g == gcd(a, b) * pow2i(min_nat(i, j))
+    ensures 0 < g <= pow2i(i) * a, is_gcd(pow2i(i) * a, pow2i(j) * b, g)
+{
+    let m = min_nat(i, j);
+    let g0 = gcd(a, b);
+    lemma_gcd_pow2_factors(i, j, a, b);
+    lemma_pow2_pos(i);
+    assert(pow2i(i) * a > 0) by (nonlinear_arith) requires a > 0, pow2i(i) >= 1;
+    lemma_gcd_is_gcd((pow2i(i) * a) as nat, (pow2i(j) * b) as nat);
+    assert(g0 * pow2i(m) == pow2i(m) * g0) by (nonlinear_arith);
+    // size: g0 | a, so g0 * 2^m <= a * 2^i
+    lemma_gcd_is_gcd(a, b);
+    lemma_divides_le(g0 as int, a as int);
+    lemma_pow2_mono(m, i);
+    lemma_pow2_pos(m);
+    assert(g0 * pow2i(m) <= pow2i(i) * a && g0 * pow2i(m) > 0) by (nonlinear_arith)
+        requires 0 < g0 <= a, 1 <= pow2i(m) <= pow2i(i);
+}
+
 /// 2-adic splitting of gcd(x, 10^e): if 2^k || x then gcd(x, 10^e) = 2^min(k,e) * gcd(x / 2^k, 5^e)
 pub proof fn lemma_gcd_pow10(x: int, e: nat, k: nat)
     requires x > 0, exact_pow2(x, k)
-    ensures
-        x / pow2i(k) > 0,
-        is_odd(x / pow2i(k)),
-        ({
-            let g = gcd((x / pow2i(k)) as nat, pow5(e) as nat) * pow2i(min_nat(k, e));
-            0 < g <= x && is_gcd(x, pow10(e), g)
-        }),
+    ensures gcd_pow10_split(x, e, k)
 {
     lemma_exact_pow2(x, k);
     lemma_pow5_odd(e);
     lemma_pow10_split(e);
-    let u = (x / pow2i(k)) as nat;
-    let v = pow5(e) as nat;
-    let m = min_nat(k, e);
-    lemma_gcd_pow2_factors(k, e, u, v);
-    lemma_gcd_is_gcd((pow2i(k) * u) as nat, (pow2i(e) * v) as nat);
-    let g0 = gcd(u, v);
-    assert(g0 * pow2i(m) == pow2i(m) * g0) by (nonlinear_arith);
-    // size: g0 | u, so g0 * 2^m <= u * 2^k = x
-    lemma_gcd_is_gcd(u, v);
-    lemma_divides_le(g0 as int, u as int);
-    lemma_pow2_mono(m, k);
-    lemma_pow2_pos(m);
-    assert(g0 * pow2i(m) <= pow2i(k) * u) by (nonlinear_arith)
-        requires 0 < g0 <= u, 1 <= pow2i(m) <= pow2i(k);
+    let w = x / pow2i(k);
+    let g = gcd(w as nat, pow5(e) as nat) * pow2i(min_nat(k, e));
+    lemma_is_gcd_pow2_factors(k, e, w as nat, pow5(e) as nat, g);
+    assert(x == pow2i(k) * (w as nat));
+    assert(pow10(e) == pow2i(e) * (pow5(e) as nat));
+    assert(w > 0 && is_odd(w));
+    assert(0 < g <= x);
+    assert(is_gcd(x, pow10(e), g));
+}
+
+/// statement of lemma_gcd_strip_subtract for one k
+pub open spec fn gcd_strip_subtract(u: nat, v: nat, k: nat) -> bool {
+    let w = v as int / pow2i(k);
+    &&& 0 < w <= v
+    &&& is_odd(w)
+    &&& (u <= w ==> gcd(u, (w - u) as nat) == gcd(u, v))
+    &&& (u > w ==> gcd(w as nat, (u - w) as nat) == gcd(u, v))
+}
+
+/// for odd u and 2^k || v: gcd(u, v) = gcd(u, w) with w = v / 2^k, and the larger of the two odd
+/// numbers u, w may be replaced by their difference
+pub proof fn lemma_gcd_strip_subtract(u: nat, v: nat, k: nat)
+    requires u > 0, is_odd(u as int), v > 0, exact_pow2(v as int, k)
+    ensures gcd_strip_subtract(u, v, k)
+{
+    let vi = v as int;
+    assert(vi > 0 && exact_pow2(vi, k));
+    lemma_exact_pow2(vi, k);
+    let w = (vi / pow2i(k)) as nat;
+    assert(gcd_strip_subtract(u, v, k) == (0 < w <= v && is_odd(w as int)
+        && (u <= w ==> gcd(u, (w - u) as nat) == gcd(u, v)) && (u > w ==> gcd(w, (u - w) as nat) == gcd(u, v))));
+    lemma_gcd_odd_pow2(u, w, k);
+    assert(w * pow2i(k) == pow2i(k) * w) by (nonlinear_arith);
+    if u <= w {
+        lemma_gcd_sub(u, w);
+    } else {
+        lemma_gcd_sub(w, u);
+        lemma_gcd_sym(w, u);
+        lemma_gcd_sym(w, (u - w) as nat);
+    }
+}
+
+/// equal values have equal cross products: c1/10^f1 = c2/10^f2 (stated at the common scale m),
+/// n1/d1 = c1/10^f1, n2/d2 = c2/10^f2  ==>  n1*d2 = n2*d1
+pub proof fn lemma_equal_value_cross(c1: int, f1: nat, c2: int, f2: nat, m: nat, n1: int, d1: int, n2: int, d2: int)
+    requires
+        m >= f1, m >= f2,
+        c1 * pow10((m - f1) as nat) == c2 * pow10((m - f2) as nat),
+        n1 * pow10(f1) == c1 * d1,
+        n2 * pow10(f2) == c2 * d2,
+    ensures n1 * d2 == n2 * d1
+{
+    let a = pow10((m - f1) as nat);
+    let b = pow10((m - f2) as nat);
+    let p = pow10(f1);
+    let q = pow10(f2);
+    let t = pow10(m);
+    lemma_pow10_add(f1, (m - f1) as nat);
+    lemma_pow10_add(f2, (m - f2) as nat);
+    lemma_pow10_pos(m);
+    assert(f1 + ((m - f1) as nat) == m && f2 + ((m - f2) as nat) == m);
+    assert(t == p * a && t == q * b);
+    let l = n1 * d2;
+    let r = n2 * d1;
+    assert(l * t == ((c1 * a) * d1) * d2) by (nonlinear_arith)
+        requires l == n1 * d2, t == p * a, n1 * p == c1 * d1;
+    assert(r * t == ((c2 * b) * d1) * d2) by (nonlinear_arith)
+        requires r == n2 * d1, t == q * b, n2 * q == c2 * d2;
+    assert(l == r) by (nonlinear_arith) requires l * t == r * t, t > 0;
 }
 
 /// existence and shape of the reduced form of c / 10^f: divide both by g = gcd(|c|, 10^f)
